@@ -19,7 +19,29 @@ pub mod ax {
         ensures #[trigger] <usize as IntoSpec<usize>>::obeys_into_spec(),
     {}
 }
-broadcast use {ax::axiom_usize_into_usize, ax::axiom_usize_obeys_into, vstd::std_specs::hash::group_hash_axioms /*@broadcast_extra*/};
+broadcast use {ax::axiom_usize_into_usize, ax::axiom_usize_obeys_into, vstd::std_specs::hash::group_hash_axioms, ax2::axiom_str_key_contains, ax2::axiom_str_key_maps, ax2::axiom_string_ext /*@broadcast_extra*/};
+
+// looking a String key up by a &str: std's Borrow<str> for String hashes and compares like the String (assumed)
+pub use ax2::has_key;
+pub mod ax2 {
+    use vstd::prelude::*;
+    use vstd::std_specs::hash::*;
+    pub open spec fn has_key<V>(m: Map<String, V>, k: Seq<char>) -> bool { exists|s: String| #[trigger] m.contains_key(s) && s@ == k }
+    #[verifier::external_body]
+    pub broadcast proof fn axiom_str_key_contains<V>(m: Map<String, V>, k: &str)
+        ensures #[trigger] contains_borrowed_key::<String, V, str>(m, k) <==> has_key(m, k@),
+    {}
+    #[verifier::external_body]
+    pub broadcast proof fn axiom_str_key_maps<V>(m: Map<String, V>, k: &str, v: V)
+        ensures #[trigger] maps_borrowed_key_to_value::<String, V, str>(m, k, v) <==> (exists|s: String| #[trigger] m.contains_key(s) && s@ == k@ && m[s] == v),
+    {}
+    // two Strings with the same characters are the same String
+    #[verifier::external_body]
+    pub broadcast proof fn axiom_string_ext(a: String, b: String)
+        ensures #[trigger] a@ == #[trigger] b@ ==> a == b,
+    {}
+}
+
 
 //@item src/lib/vm.rs const MB
 //@item src/lib/arch.rs struct i8086
@@ -145,6 +167,23 @@ pub mod verif_io {
     pub fn str_id(s: &String) -> (r: u64)
         ensures r == str_id_of(s@),
     { 0 }
+    // R11: byte slicing and byte length of ASCII text (one byte per character)
+    #[verifier::external_body]
+    pub fn str_slice<'a>(s: &'a str, a: usize, b: usize) -> (r: &'a str)
+        requires s.is_ascii(), a <= b <= s@.len(),
+        ensures r@ == s@.subrange(a as int, b as int), r.is_ascii(),
+    { &s[a..b] }
+    #[verifier::external_body]
+    pub fn str_len(s: &str) -> (r: usize)
+        requires s.is_ascii(),
+        ensures r == s@.len(),
+    { s.len() }
+    // R12: the bytes of ASCII text, in order
+    #[verifier::external_body]
+    pub fn str_bytes_vec(s: &str) -> (r: Vec<u8>)
+        requires s.is_ascii(),
+        ensures r@.len() == s@.len(), forall|i: int| 0 <= i < s@.len() ==> r@[i] == s@[i] as u8,
+    { s.bytes().collect() }
     // R3: format!(..) -- the text of a message is not modelled
     #[verifier::external_body]
     pub fn opaque_string() -> (r: String) { String::new() }
